@@ -131,6 +131,7 @@ SET_MENU = [
     ("timeout", "inf"), ("timeout", "nan"), ("max_retries", "0"), ("max_retries", "true"),
     # the same settings spelled with a hyphen (the loader reads both spellings as one key)
     ("greeting", "Dear "), ("greeting", "  >> hello"), ("greeting", "\tTabbed"), ("greeting", "wait\x85done"), ("greeting", "line\u2028sep"),
+    ("max_retries", "9007199254740993"), ("timeout", "2.0"), ("timeout", "1e2"), ("greeting", "2.0"),
     ("log-level", "DEBUG"), ("log-level", "bogus"), ("output-format", "xml"), ("output-format", "json"), ("max-retries", "-1"), ("app-name", ""), ("new-key", "v2"),
 ]
 
@@ -345,6 +346,14 @@ def t_set(acc: Acc, root, key: str, value: str, hist):
         if not ok:
             acc.fail({"inv": "written-config-valid", **sig_v}, case, "valid", errs)
         v0 = cfg.get(key, cfg.get(key.replace("-", "_")))
+        # a numeral is stored as the number it spells, with the type it spells (2.0 is a float)
+        if _is_number(value) and value.strip() == value and value.lower() not in ("nan", "inf", "-inf", "infinity"):
+            try:
+                want_num = int(value)
+            except ValueError:
+                want_num = float(value)
+            if not (type(v0) is type(want_num) and v0 == want_num):
+                acc.fail({"inv": "accepted-number-differs-from-input", "key": key.replace("-", "_"), "kind": "integer" if isinstance(want_num, int) else "float"}, case, repr(want_num), repr(v0))
         dkey = key.replace("-", "_")
         if dkey in DOMAIN and not DOMAIN[dkey](v0):
             acc.fail({"inv": "accepted-value-outside-documented-domain", "key": dkey, "spelling": "hyphen" if "-" in key else "underscore", "value_class": "falsy" if not v0 else ("non-finite" if isinstance(v0, float) else "other")}, case, f"a documented value for {key}", repr(v0))
